@@ -254,6 +254,11 @@ def from_arg_table(run):
         n = f(W, {"name": "verif-named"})
         if type(n) is not Named or n.name != "default":
             run.violation({"kind": "from_arg_name_as_alias", "got": type(n).__name__})
+        # a JSON null is a value like any other: it is passed, it does not mean "use the default"
+        n = f(W, json.loads('{"alias": "verif-named", "name": null}'))
+        if type(n) is not Named or n.name is not None:
+            run.violation({"kind": "from_arg_null_value_not_passed_as_keyword_argument", "got": type(n).__name__,
+                           "name_kwarg": repr(getattr(n, "name", "?"))})
     finally:
         Named.aliases = set()
     for m, cls in (({"alias": "gamma", "order": 2}, filters.GammaWindow), ({"name": "hann"}, filters.HannWindow),
@@ -275,6 +280,28 @@ def from_arg_table(run):
                 run.violation({"kind": "from_arg_mapping_not_treated_as_keyword_arguments", "mapping": before, "wrapper": wrap.__name__,
                                "got": type(got).__name__, "definition": cls.__name__})
             run.evaluations += 1
+    # classes whose constructor collects further keywords (**kwargs: what numpy.pad takes): the mapping is passed whole
+    xs = np.arange(24, dtype=np.float64).reshape(6, 4) ** 2
+    for (cfgm, mk) in (({"name": "deltas", "num_deltas": 1, "pad_mode": "constant", "constant_values": 2.5},
+                        lambda: post.Deltas(1, pad_mode="constant", constant_values=2.5)),
+                       ({"alias": "deltas", "num_deltas": 2, "pad_mode": "linear_ramp", "end_values": -3.0, "context_window": 1},
+                        lambda: post.Deltas(2, pad_mode="linear_ramp", end_values=-3.0, context_window=1)),
+                       ({"name": "stack", "num_vectors": 3, "pad_mode": "constant", "constant_values": -1.0, "time_axis": 0},
+                        lambda: post.Stack(3, pad_mode="constant", constant_values=-1.0, time_axis=0)),
+                       ({"name": "stack", "num_vectors": 2, "pad_mode": "reflect", "reflect_type": "odd"},
+                        lambda: post.Stack(2, pad_mode="reflect", reflect_type="odd"))):
+        for wrap in MAPPING_KINDS[:3]:
+            run.evaluations += 1
+            try:
+                got = f(post.PostProcessor, wrap(json.loads(json.dumps(cfgm)))).apply(xs)
+                want = mk().apply(xs)
+            except Exception as e:
+                run.violation({"kind": "from_arg_mapping_not_treated_as_keyword_arguments", "mapping": cfgm, "wrapper": wrap.__name__,
+                               "error": repr(e)})
+                continue
+            if got.shape != want.shape or got.tobytes() != want.tobytes():
+                run.violation({"kind": "from_arg_mapping_not_treated_as_keyword_arguments", "mapping": cfgm, "wrapper": wrap.__name__,
+                               "what": "result differs from explicit construction with the same keywords"})
     for bad in ("no-such", {"alias": "no-such"}, {"name": "no-such"}):
         try:
             f(W, bad)
@@ -355,7 +382,7 @@ def config_trees(run, tier, rng):
     # in a configuration mapping
     with warnings.catch_warnings():
         warnings.simplefilter("ignore")
-        for (power, log) in ((True, False), (False, True)):
+        for (power, log) in ((True, False), (False, True), (None, None), (True, None)):
             bank = filters.GaborFilterBank("mel", num_filts=3, sampling_rate=8000)
             win = filters.HannWindow()
             pos_si = compute.SIFrameComputer(bank, 8, "causal", True, False, win, power, log)
